@@ -128,6 +128,7 @@ impl IOQueue {
     pub fn clear_but_last(&mut self) {
         if self.chunks.len() > 1 {
             self.chunks.drain(1..);
+            self.length = self.as_slice().len();
         }
     }
 
